@@ -524,6 +524,57 @@ def insertAll : List (Name × SVal) → Ctx → Option Ctx
 def ctxOfEntries (m : List (Key × Value)) : Ctx :=
   m.foldl (fun c (e : Key × Value) => ctxInsert (fmtKey e.1) e.2 c) []
 
+/-! ## args.rs: the typed readers `T::try_from(Value)`, `ArgFromValue::from_value`, `Kwargs::get::<T>` -/
+
+inductive ArgErr where
+  /-- `ErrorKind::InvalidArgument` -/
+  | invalidType
+  /-- `ErrorKind::OutOfRangeArgument` -/
+  | outOfRange
+  deriving Repr, DecidableEq
+
+/-- `int_from_value::<T>`: every integer kind is range-checked into `T`; a float is accepted when
+it is a whole number inside i128 (±inf pass the `trunc() == v` guard and are then out of range; a
+fractional float or NaN falls to the invalid-type arm). -/
+def argInt (t : IntTy) (v : Value) : Except ArgErr SVal :=
+  match v.intVal with
+  | some n => if t.inRange n then .ok (.int t n) else .error .outOfRange
+  | Option.none =>
+    match v with
+    | .f64 (.inf _) => .error .outOfRange
+    | .f64 (.fin neg m e) =>
+      let x : F64 := .fin neg m e
+      if x.fractIsZero then
+        let n := x.truncInt
+        if -(2:Int)^127 ≤ n ∧ n < (2:Int)^127 ∧ t.inRange n then .ok (.int t n) else .error .outOfRange
+      else .error .invalidType
+    | _ => .error .invalidType
+
+/-- `f32_from_value`: integers and floats are cast with `as f32`; a finite input that does not
+fit (the cast gives an infinity) is out of range, a non-finite input stays what it is. -/
+def argF32 (fc : FloatCasts) (v : Value) : Except ArgErr SVal :=
+  match v.intVal with
+  | some n => let c := fc.intTo32 n; if c.isFinite then .ok (.f32 c) else .error .outOfRange
+  | Option.none =>
+    match v with
+    | .f64 x => let c := fc.f64to32 x; if c.isFinite || !x.isFinite then .ok (.f32 c) else .error .outOfRange
+    | _ => .error .invalidType
+
+/-- the `f64` reader (`impl_for_literal!`): integers are cast with `as f64`, a float is itself -/
+def argF64 (v : Value) : Except ArgErr SVal :=
+  match v.intVal with
+  | some n => .ok (.f64 (F64.ofIntRNE n))
+  | Option.none =>
+    match v with
+    | .f64 x => .ok (.f64 x)
+    | _ => .error .invalidType
+
+/-- the `bool` reader -/
+def argBool (v : Value) : Except ArgErr SVal :=
+  match v with
+  | .bool b => .ok (.bool b)
+  | _ => .error .invalidType
+
 /-! ## `impl Serialize for Value` / `for Key` (value/mod.rs, key.rs): a `Value` given to serde -/
 
 /-- the serializer call `impl Serialize for Key` makes -/
